@@ -161,6 +161,17 @@ class Fn:
         if self.objmode and isinstance(e, ast.Attribute) and isinstance(e.value, ast.Name) and e.value.id in self.params \
                 and e.value.id != 'self' and e.attr in ('year', 'month', 'day', 'hour', 'minute', 'second'):
             return f'(py_getattr ({self.fld(e.value.id)} l) {coq_str(e.attr)})'
+        if self.objmode and isinstance(e, ast.JoinedStr) and len(e.values) == 2 and isinstance(e.values[0], ast.Constant) \
+                and isinstance(e.values[0].value, str) and isinstance(e.values[1], ast.FormattedValue) \
+                and e.values[1].conversion == -1 and e.values[1].format_spec is None:
+            # f'prefix{i}' for an integer i
+            return f'(py_fstr {coq_str(e.values[0].value)} {self.ex(e.values[1].value)})'
+        if self.objmode and isinstance(e, ast.Attribute) and e.attr == 'value' and isinstance(e.value, ast.Name) \
+                and e.value.id in self.locals and e.value.id != 'self':
+            # <item>.value for an item fetched with self.f.get(..)
+            if e.value.id not in self.defined:
+                err(e, f'local {e.value.id} may be read before it is assigned')
+            return f'(py_getattr ({self.fld(e.value.id)} l) "value")'
         if isinstance(e, ast.Constant):
             v = e.value
             if v is None:
@@ -714,6 +725,10 @@ class ObjFn(Fn):
         f = dotted(c.func)
         if f is None or c.keywords:
             return None
+        if f == 'self.f.get' and len(c.args) == 1:
+            # Fields.get(name) = self._fields[name]: the item, KeyError if there is no such field
+            self.uses_fields_get = True
+            return f'(res_call (py_fld_item (py_getattr ({self.fld("self")} l) "f") {self.ex(c.args[0])}) w)'
         if f == 'json.loads' and len(c.args) == 1:
             import json as _json
             if getattr(self.mod, 'json', None) is not _json:
@@ -830,6 +845,26 @@ class ObjFn(Fn):
         if isinstance(st, ast.Expr) and isinstance(st.value, ast.Call) and dotted(st.value.func) == 'self.f.add' and len(st.value.args) == 1:
             sf = f'({self.fld("self")} l)'
             return (f'(s_assign {self.self_setter("f")} (fun l w => py_fields_add (py_getattr {sf} "f") {self.ex(st.value.args[0])}))')
+        if isinstance(st, ast.Expr) and isinstance(st.value, ast.Call) and isinstance(st.value.func, ast.Attribute) \
+                and not st.value.args and not st.value.keywords and isinstance(st.value.func.value, ast.Subscript) \
+                and dotted(st.value.func.value.value) == 'self.f._fields' and st.value.func.attr in getattr(self, 'item_methods', {}):
+            # self.f._fields[name].<method>(): the item's (translated) method, its new value written back to the field
+            kern = self.item_methods[st.value.func.attr]
+            sf = f'({self.fld("self")} l)'
+            nm = self.ex(st.value.func.value.slice)
+            setback = (f'(fun l v => {self.setter("self")} l (py_setattr {sf} "f" (py_fld_set_v (py_getattr {sf} "f") {nm} '
+                       f'(py_getattr v "value"))))')
+            callee = (f'(fun l w => match py_fld_item (py_getattr {sf} "f") {nm} with Ok it => {kern} fuel it w '
+                      f'| Raise e => FRaise e w end)')
+            return f'(s_call_assign2 (fun l _ => l) {setback} {callee})'
+        if isinstance(st, ast.For) and isinstance(st.iter, ast.Call) and dotted(st.iter.func) == 'range' and len(st.iter.args) == 1 \
+                and not st.iter.keywords and isinstance(st.target, ast.Name) and not st.orelse and self.call(st.iter.args[0]) is None:
+            v = st.target.id
+            before = set(self.defined)
+            self.defined.add(v)
+            body = self.block(st.body)
+            self.defined = before
+            return f'(s_for_list {self.lam("py_range " + self.ex(st.iter.args[0]))} {self.setter(v)} {body})'
         if isinstance(st, ast.For):
             if st.orelse or not isinstance(st.target, ast.Name):
                 err(st, 'for loop form not supported')
@@ -1011,6 +1046,67 @@ HELPERS = [('ubxlib.ubx_cfg_rate', 'UbxCfgRate', ['set_rate_in_hz'], 'ghr_'),
            ('ubxlib.ubx_cfg_esfla', 'UbxCfgEsflaSet', ['set'], 'ghe_'),
            ('ubxlib.ubx_mga_ini_time_utc', 'UbxMgaIniTimeUtc', ['set_datetime'], 'ght_'),
            ('ubxlib.ubx_cfg_gnss', 'X4_Flags', ['enable', 'disable'], 'ghf_')]
+
+
+GNSS_METHODS = ['_find_entry', 'enable_gnss', 'disable_gnss', 'gps_glonass', 'gps_galileo_beidou']
+
+
+def emit_gnss_v(path):
+    """UbxCfgGnss._find_entry / enable_gnss / disable_gnss and the two presets (ubxlib/ubx_cfg_gnss.py), with X4_Flags.enable /
+    disable -> gen/GnssKernels.v"""
+    import ubxlib.ubx_cfg_gnss as mod
+    import ubxlib.types as T_
+    cls = mod.UbxCfgGnss
+    flags = mod.X4_Flags
+    # which classes define enable()/disable(): the flags item only (dynamic dispatch on self.f._fields[..] resolves to it)
+    for meth in ('enable', 'disable'):
+        owners = [k.__name__ for k in vars(mod).values() if isinstance(k, type) and meth in k.__dict__] \
+            + [k.__name__ for k in vars(T_).values() if isinstance(k, type) and meth in k.__dict__]
+        if owners != ['X4_Flags']:
+            raise TranslateError(f'{meth}() is defined by {owners}, expected X4_Flags only')
+    # Fields.get(name) must be the plain dictionary lookup
+    g_ = method_ast(T_.Fields, 'get')
+    gb = [b_ for b_ in g_.body if not is_noop(b_)]
+    arg = g_.args.args[1].arg if len(g_.args.args) == 2 else None
+    if not (len(gb) == 1 and isinstance(gb[0], ast.Return) and ast.unparse(gb[0].value) == f'self._fields[{arg}]'):
+        raise TranslateError('Fields.get is no longer `return self._fields[<its argument>]`')
+    # the block fields of the decoded frame: gnssId_{i} ... flags_{i} with flags an X4_Flags (read off unpack())
+    src_unpack = ast.unparse(method_ast(cls, 'unpack'))
+    if "X4_Flags(f'flags_{i}')" not in src_unpack or "U1_GnssId(f'gnssId_{i}')" not in src_unpack:
+        raise TranslateError('UbxCfgGnss.unpack no longer builds gnssId_{i} / flags_{i} (X4_Flags) per block')
+    fns = []
+    item_methods = {}
+    for m in ('enable', 'disable'):
+        if m not in flags.__dict__:
+            raise TranslateError(f'X4_Flags.{m} is no longer defined in the class itself')
+        f = ObjFn(mod, flags, m, {}, prefix='ghf_')
+        f.short = 'hf_' + f.short
+        fns.append(f)
+        item_methods[m] = gname(m, 'ghf_')
+    known = {}
+    for m in GNSS_METHODS:
+        if m not in cls.__dict__:
+            raise TranslateError(f'UbxCfgGnss.{m} is no longer defined in the class itself')
+        f = ObjFn(mod, cls, m, dict(known), prefix='ghg_')
+        f.short = 'hg_' + f.short
+        f.item_methods = item_methods
+        fns.append(f)
+        known[m] = f
+    L = ['(* GENERATED on every run by py/vlib/translate_req.py from ubxlib/ubx_cfg_gnss.py in /repo. Do not edit. *)',
+         'From Coq Require Import String.',
+         'From Ubx Require Import Fields Base Checksum Frame ParserUbx ParserNmea CfgKeys Request PySem.',
+         'Open Scope N_scope.', '']
+    for f in fns:
+        L += f.record()
+    L += ['', 'Section G.', 'Context {E : Type} (B : backend E) (sk : list N).', 'Notation fres := (@fres E).', '']
+    for f in fns:
+        L.append(f.emit())
+        L.append('')
+    L.append('End G.')
+    text = '\n'.join(L) + '\n'
+    with open(path, 'w') as fh:
+        fh.write(text)
+    return text
 
 
 def emit_helpers_v(path):
